@@ -47,7 +47,7 @@ fn gen_lists(budget: u32, maxlen: usize, nest: u32, top: bool) -> Vec<PList> {
         if !cur.is_empty() || top {
             out.push(PList { items: cur.clone(), tail: false });
             // a dotted tail directly after an ellipsis is a different shape: included
-            if used < budget && !cur.is_empty() {
+            if used < budget && (!cur.is_empty() || top) {
                 out.push(PList { items: cur.clone(), tail: true });
             }
         }
@@ -225,7 +225,14 @@ fn templates(vars: &[(String, u32)], ell: &str, rich: bool) -> Vec<(&'static str
     let d0 = vars[0].1;
     if vars.len() >= 2 && d0 >= 1 && vars.iter().all(|v| v.1 == d0) {
         let inner = Cell::new_list(vars.iter().map(|v| sym(&v.0)).collect::<Vec<_>>());
-        out.push(("shared-ellipsis", Cell::new_list(with_ellipses(inner, d0, ell))));
+        out.push(("shared-ellipsis", Cell::new_list(with_ellipses(inner.clone(), d0, ell))));
+        // the same sub-template followed by each variable again on its own (the instantiator's cursors must restart)
+        let mut parts = vec![sym("s")];
+        parts.push(Cell::new_list(with_ellipses(inner, d0, ell)));
+        for v in vars.iter().rev() {
+            parts.push(Cell::new_list(with_ellipses(sym(&v.0), v.1, ell)));
+        }
+        out.push(("shared-ellipsis-then-each", Cell::new_list(parts)));
     }
     // a depth-0 variable repeated inside another variable's ellipsis
     if let (Some(z), Some(e)) = (vars.iter().find(|v| v.1 == 0), vars.iter().find(|v| v.1 == 1)) {
@@ -298,13 +305,21 @@ fn uses(l: &PList, reps: usize) -> Vec<(&'static str, Cell)> {
         }
         if l.tail {
             *ctr += 1;
-            // the tail variable matches the rest: here two more elements
-            v.push(sym(&format!("y{}", ctr)));
-            v.push(num(*ctr));
+            // the tail variable matches the rest: two more elements, or (rep = 0) none, or (rep = 1) one
+            if rep != 0 {
+                v.push(sym(&format!("y{}", ctr)));
+            }
+            if rep != 1 {
+                v.push(num(*ctr));
+            }
+            if rep == 0 {
+                v.pop();
+            }
         }
         Cell::new_list(v)
     }
     let mut out = vec![];
+    // `true` occurs in the debug form for an ellipsis item and for a dotted tail: both make the input's length vary
     let has_ell = format!("{:?}", l).contains("true");
     let range = if has_ell { 0..=reps } else { 1..=1 };
     for rep in range {
@@ -409,6 +424,71 @@ fn classify(pattern: &Cell, tlabel: &str, ulabel: &str, vars: &[(String, u32)]) 
     tags.join("/")
 }
 
+/// The pattern as first rule followed by two catch-all rules: a use that the first rule takes under R7RS must not
+/// fall through silently. Small shapes only (<= 2 atoms, nesting <= 1), the same set in both tiers, both ellipsis
+/// spellings: the matcher's partial support makes many of these fall through on the unchanged tree (recorded as
+/// known findings by exact key), so the family is kept small and fixed.
+fn catch_all_cases() -> Vec<Case> {
+    let mut cases = vec![];
+    for shape in gen_lists(2, 3, 1, true) {
+        for ell in ["...", ":::"] {
+            let named = name_pattern(&shape, ell);
+            let pattern_with_kw = Cell::new_pair(sym("_"), named.pattern.clone());
+            let tmpl1 = {
+                let mut p = vec![sym("first")];
+                for v in &named.vars {
+                    p.extend(with_ellipses(sym(&v.0), v.1, ell));
+                }
+                Cell::new_list(p)
+            };
+            let second = Cell::new_list(vec![sym("_"), sym("x"), sym(ell)]);
+            let tmpl2 = Cell::new_list(vec![sym("fallback"), sym("x"), sym(ell)]);
+            let third = Cell::new_improper_list(vec![sym("_")], sym("y"));
+            let tmpl3 = Cell::new_list(vec![sym("fallback-dotted"), sym("y")]);
+            // dotted uses with one and two items before the dot have their own catch-all rules
+            let fourth = Cell::new_improper_list(vec![sym("_"), sym("p")], sym("s"));
+            let tmpl4 = Cell::new_list(vec![sym("fallback-dotted-1"), sym("p"), sym("s")]);
+            let fifth = Cell::new_improper_list(vec![sym("_"), sym("p"), sym("q")], sym("s"));
+            let tmpl5 = Cell::new_list(vec![sym("fallback-dotted-2"), sym("p"), sym("q"), sym("s")]);
+            let rules = Rules {
+                ellipsis: ell.to_string(),
+                literals: vec!["lit".into()],
+                rules: vec![
+                    (pattern_with_kw.clone(), tmpl1.clone()),
+                    (second.clone(), tmpl2.clone()),
+                    (third.clone(), tmpl3.clone()),
+                    (fourth.clone(), tmpl4.clone()),
+                    (fifth.clone(), tmpl5.clone()),
+                ],
+            };
+            let def = format!(
+                "(define-syntax m (syntax-rules {}(lit) ({:#} '{:#}) ({:#} '{:#}) ({:#} '{:#}) ({:#} '{:#}) ({:#} '{:#})))",
+                if ell == "..." { String::new() } else { format!("{} ", ell) },
+                pattern_with_kw, tmpl1, second, tmpl2, third, tmpl3, fourth, tmpl4, fifth, tmpl5
+            );
+            for (ulabel, args) in uses(&shape, 2) {
+                let form = Cell::new_pair(sym("m"), args);
+                let expected = match rules.definition_valid() {
+                    Err(e) => Exp::Invalid(e),
+                    Ok(()) => match rules.expand(&form) {
+                        Expansion::Ok(c) => Exp::Value(c),
+                        Expansion::NoMatch => Exp::NoMatch,
+                        Expansion::Invalid(e) => Exp::Invalid(e),
+                    },
+                };
+                cases.push(Case {
+                    def: def.clone(),
+                    usetext: format!("{:#}", form),
+                    expected,
+                    class: format!("catch-all-after/{}", classify(&named.pattern, "catch-all", ulabel, &named.vars)),
+                    key: format!("{} | {:#}", def, form),
+                });
+            }
+        }
+    }
+    cases
+}
+
 fn make_cases(tier: Tier) -> Vec<Case> {
     let (budget, nest, reps) = match tier {
         Tier::Quick => (3u32, 1u32, 2usize),
@@ -494,6 +574,7 @@ fn make_cases(tier: Tier) -> Vec<Case> {
             }
         }
     }
+    cases.extend(catch_all_cases());
     cases
 }
 
